@@ -134,3 +134,15 @@ Print Assumptions C19_is_convex_checks_the_turn_at_every_vertex.
 Example C19_L_started_at_its_reflex_corner_is_not_convex :
   Polygon2D_is_convex (mkPolygon2 (mkV2 1 1 :: mkV2 1 4 :: mkV2 0 4 :: mkV2 0 0 :: mkV2 4 0 :: mkV2 4 1 :: nil)) = false.
 Proof. vm_compute. reflexivity. Qed.
+
+(* Face3D's vertex clean-up (generated Face3D._remove_colinear, used for the boundary and every hole, and by extract_rectangle before
+   sub_faces_by_ratio_rectangle) IS Polygon2D.remove_colinear_vertices run on the loop's 2D polygon: for 3D vertices that are the images of
+   the 2D ones under any map, it keeps exactly the images of the vertices the 2D routine keeps - same test, same clamp, same seam patch *)
+From Coq Require Import List.
+From LBG Require Import Base G0_vec G3_poly G4_face G9_clean C15_face.
+Theorem C19_face_cleanup_is_the_polygon_cleanup : forall (qsqrt : Q -> Q) (emb : V2 -> V3) (self : Face3R) (p : Polygon2R) (tol : Q),
+  pg_vertices p <> nil ->
+  Face3D__remove_colinear qsqrt self (map emb (pg_vertices p)) p tol
+  = map emb (pg_vertices (Polygon2D_remove_colinear_vertices qsqrt p tol)).
+Proof. exact face_remove_colinear_is_the_2d_routine. Qed.
+Print Assumptions C19_face_cleanup_is_the_polygon_cleanup.
